@@ -3097,6 +3097,8 @@ class Entity(MutableMapping[str, str]):
         self['classname'] = 'info_null'
         del self['targetname']
         self._keys.clear()
+        # The entity is still filed under info_null in by_class, so that must stay its classname.
+        self._keys['classname'] = 'info_null'
         # Clear $fixup as well.
         self._fixup = None
     clear_keys = clear
